@@ -126,9 +126,9 @@ Proof.
 Qed.
 
 Section Loop.
-  Variables (e d dcnt : Z) (g : lane_fn) (st : state) (valof : Z -> option Z) (flagof : Z -> bool).
-  Hypothesis Hd : forall l v, valof l = Some v -> is_vgpr d = true.
-  Hypothesis Hg : forall l s, lane_agree st s l -> g l s = Some (valof l, flagof l).
+  Context (e d dcnt : Z) (g : lane_fn) (st : state) (valof : Z -> option Z) (flagof : Z -> bool).
+  Context (Hd : forall l v, valof l = Some v -> is_vgpr d = true).
+  Context (Hg : forall l s, lane_agree st s l -> g l s = Some (valof l, flagof l)).
 
   Lemma vloop_gen : forall ls s m, NoDup ls -> scal_agree st s ->
     (forall l, In l ls -> forall r, vgpr s l r = vgpr st l r) ->
@@ -308,14 +308,14 @@ Proof.
 Qed.
 
 Section Glue.
-  Variables (a : arch) (st : state) (i : inst) (d : vdesc) (r : vrow).
-  Hypothesis Hd : vdesc_of a (i_fmt i) (i_op i) = Some d.
-  Hypothesis Hr : vrow_of a (i_fmt i) (i_op i) = Some r.
-  Hypothesis Hrel : vrel d r.
-  Hypothesis Hnr : ~ (i_fmt i = F_VOP1 /\ i_op i = 2).
-  Hypothesis Hwf : wf st.
-  Hypothesis Hlit : 0 <= i_lit i < W32.
-  Hypothesis Hadm : vadm d r i.
+  Context (a : arch) (st : state) (i : inst) (d : vdesc) (r : vrow).
+  Context (Hd : vdesc_of a (i_fmt i) (i_op i) = Some d).
+  Context (Hr : vrow_of a (i_fmt i) (i_op i) = Some r).
+  Context (Hrel : vrel d r).
+  Context (Hnr : ~ (i_fmt i = F_VOP1 /\ i_op i = 2)).
+  Context (Hwf : wf st).
+  Context (Hlit : 0 <= i_lit i < W32).
+  Context (Hadm : vadm d r i).
 
   Let A (l : Z) := oget (rdv st (i_src0 i) 0 (i_lit i) l).
   Let B (l : Z) := if 2 <=? vd_n d then oget (rdv st (i_src1 i) 0 (i_lit i) l) else 0.
